@@ -2,6 +2,8 @@ import Mathlib.Analysis.SpecialFunctions.Log.Basic
 import Mathlib.Algebra.Order.Round
 import Mathlib.Tactic.Linarith
 import Mathlib.Tactic.NormNum
+import Mathlib.Data.Rat.Cast.Order
+import HcipyVerif.Model.Cache
 
 /-!
 # The wavelength part of an instance-cache key, over ℝ
@@ -32,6 +34,10 @@ noncomputable def wlKey (r : ℝ → ℤ) (b lam : ℝ) : ℤ := r (Real.log lam
 def BaseOk (b : ℝ) : Prop := 1 + 1 / (2 * 10 ^ 9) ≤ b ∧ b ≤ 1 + 2 / 10 ^ 9
 
 theorem baseOk_exact : BaseOk (1 + 1 / 10 ^ 9) := by
+  constructor <;> norm_num
+
+/-- The double nearest to `1 + 1e-9`, `1 + 4503600·2⁻⁵²`, is an admissible base. -/
+theorem base_double_ok : BaseOk (1 + 4503600 / 2 ^ 52) := by
   constructor <;> norm_num
 
 theorem log_base_pos {b : ℝ} (hb : BaseOk b) : 0 < Real.log b :=
@@ -140,5 +146,58 @@ theorem wavelength_key_shared_close_base {r : ℝ → ℤ} (hr : Nearest r) {b :
   have : l2 / l1 ≤ b := (Real.log_le_log_iff hpos hbpos).mp hl
   rw [div_le_iff₀ h1] at this
   linarith
+
+/-- **Enclosure of a key difference** over ℝ, from `1 − 1/x ≤ log x ≤ x − 1` only. -/
+theorem key_diff_bounds_real {r : ℝ → ℤ} (hr : Nearest r) {b l1 l2 : ℝ} (hb : 1 < b) (h1 : 0 < l1)
+    (hle : l1 ≤ l2) :
+    (1 - l1 / l2) / (b - 1) - 1 ≤ (wlKey r b l2 : ℝ) - (wlKey r b l1 : ℝ) ∧
+      (wlKey r b l2 : ℝ) - (wlKey r b l1 : ℝ) ≤ (l2 / l1 - 1) / (1 - 1 / b) + 1 := by
+  have h2 : 0 < l2 := lt_of_lt_of_le h1 hle
+  have hbpos : 0 < b := by linarith
+  have hc : 0 < Real.log b := Real.log_pos hb
+  have hρ : 0 < l2 / l1 := by positivity
+  have hlo := Real.one_sub_inv_le_log_of_pos hρ
+  rw [inv_div] at hlo
+  have hhi := Real.log_le_sub_one_of_pos hρ
+  have hblo := Real.one_sub_inv_le_log_of_pos hbpos
+  have hbhi := Real.log_le_sub_one_of_pos hbpos
+  have hq : l1 / l2 ≤ 1 := (div_le_one h2).mpr hle
+  have hρ1 : 1 ≤ l2 / l1 := (one_le_div h1).mpr hle
+  have hL0 : 0 ≤ Real.log (l2 / l1) := Real.log_nonneg hρ1
+  have hb1 : 0 < b - 1 := by linarith
+  have hinv : b⁻¹ < 1 := inv_lt_one_of_one_lt₀ hb
+  have hb2 : 0 < 1 - 1 / b := by rw [one_div]; linarith
+  have hblo' : 1 - 1 / b ≤ Real.log b := by rw [one_div]; exact hblo
+  have lower : (1 - l1 / l2) / (b - 1) ≤ Real.log (l2 / l1) / Real.log b := by
+    rw [div_le_div_iff₀ hb1 hc]
+    have hA : 0 ≤ 1 - l1 / l2 := by linarith
+    nlinarith [mul_le_mul_of_nonneg_left hbhi hA, mul_le_mul_of_nonneg_right hlo (le_of_lt hb1)]
+  have upper : Real.log (l2 / l1) / Real.log b ≤ (l2 / l1 - 1) / (1 - 1 / b) := by
+    rw [div_le_div_iff₀ hc hb2]
+    nlinarith [mul_le_mul_of_nonneg_left hblo' hL0, mul_le_mul_of_nonneg_right hhi (le_of_lt hc)]
+  have s1 := nearest_sub_ge hr (Real.log l1 / Real.log b) (Real.log l2 / Real.log b)
+  have s2 := nearest_sub_le hr (Real.log l1 / Real.log b) (Real.log l2 / Real.log b)
+  rw [scaled_sub h1 h2] at s1 s2
+  unfold wlKey
+  constructor <;> linarith
+
+open HcipyVerif.Cache in
+theorem wlBase_cast : ((wlBase : ℚ) : ℝ) = 1 + 4503600 / 2 ^ 52 := by
+  unfold wlBase; push_cast; ring
+
+open HcipyVerif.Cache in
+/-- The executed rational bounds enclose the key difference of the ℝ model at the double base. -/
+theorem key_diff_bounds_rat {r : ℝ → ℤ} (hr : Nearest r) {l1 l2 : ℚ} (h1 : 0 < l1) (hle : l1 ≤ l2) :
+    (((wlKeyDiffBounds l1 l2).1 : ℚ) : ℝ) ≤
+        (wlKey r ((wlBase : ℚ) : ℝ) (l2 : ℝ) : ℝ) - (wlKey r ((wlBase : ℚ) : ℝ) (l1 : ℝ) : ℝ) ∧
+      (wlKey r ((wlBase : ℚ) : ℝ) (l2 : ℝ) : ℝ) - (wlKey r ((wlBase : ℚ) : ℝ) (l1 : ℝ) : ℝ) ≤
+        (((wlKeyDiffBounds l1 l2).2 : ℚ) : ℝ) := by
+  have hb : (1 : ℝ) < ((wlBase : ℚ) : ℝ) := by rw [wlBase_cast]; norm_num
+  have h1' : (0 : ℝ) < (l1 : ℝ) := by exact_mod_cast h1
+  have hle' : (l1 : ℝ) ≤ (l2 : ℝ) := by exact_mod_cast hle
+  have := key_diff_bounds_real hr hb h1' hle'
+  simp only [wlKeyDiffBounds, wlDiffLo, wlDiffHi]
+  push_cast
+  exact this
 
 end HcipyVerif.WavelengthKey
